@@ -285,14 +285,8 @@ def gen_cases(rng, tier):
 
 
 def classify(line, tags, model_out, impl_out, verdict):
-    """known-finding classes, decided on the INPUT (features of the generated document / encryption dictionary)"""
-    feats = set(tags.get('feats', []))
-    if 'eff' in feats:
-        return 'eff-ignored'
-    if 'dp-array' in feats:
-        return 'decodeparms-array'
-    if 'direct-encrypt' in feats:
-        return 'direct-encrypt-dict'
+    """known-finding classes, decided on the INPUT: none is open (eff-ignored, decodeparms-array and direct-encrypt-dict
+    are fixed in /repo: 0fbc00d, f8740d3, fbda92c; their generators stay in the plan as ordinary cases)"""
     return None
 
 
@@ -343,8 +337,9 @@ MANIFEST = {
                   'against the crates, not by proof; AES decryption inverting encryption is a hypothesis; password preparation '
                   '(PDFDocEncoding/SASLprep) is an oracle (ASCII passwords); the specification reader\'s own object/document '
                   'round trip and the document-level composition are computed/sampled, not proved; Algorithm 13 / 2.A are '
-                  'one-directional (lopdf accepts what the standard accepts). Open known findings: EFF ignored, DecodeParms '
-                  'arrays, direct encryption dictionary. Trusted: Coq kernel, translator part Crypto, extraction. No axioms.',
+                  'one-directional (lopdf accepts what the standard accepts). No open known finding (EFF, DecodeParms arrays '
+                  'and the direct encryption dictionary are fixed). Trusted: Coq kernel, translator part Crypto, extraction. '
+                  'No axioms.',
     'technique': 'Coq refinement proofs model-vs-standard + extracted specification as independent implementation in a two-way '
                  'differential check + direct property evaluation on the crate',
     'design_ref': 'DESIGN.md 6 C06',
